@@ -379,18 +379,18 @@ def obligations(tier, seed):
     q = tier == "quick"
     out = C02.gen_obligations(tier, seed, ["int", "str"], alphabet, run_model,
                               lambda o: o[0] in ("add_node", "add_edge", "remove_edge", "remove_node"),
-                              max_states=(90, 1500), max_depth=(4, 5))
+                              max_states=(90, 300), max_depth=(4, 5))
     rng = random.Random(seed + 1)
     for uni, weighted in ([("int", True), ("int", False)] if q else [(u, w) for u in ("int", "str") for w in (True, False)]):
         U = UNIVERSES[uni]
         gen_ops = [o for o in alphabet(U, weighted, False) if o[0] in ("add_node", "add_edge")]
-        sg = C02.state_graph(U, weighted, gen_ops, run_model, max_depth=3 if q else 4, max_states=60 if q else 900)
+        sg = C02.state_graph(U, weighted, gen_ops, run_model, max_depth=3 if q else 4, max_states=60 if q else 300)
         for st in sg:
             out.append({"family": "derive-agg", "layer": "state", "universe": uni, "weighted": weighted,
                         "ops": sg[st][0], "mode": "agg"})
         adds = [o for o in alphabet(U, weighted) if o[0] in ("add_edge", "add_edges", "add_node", "set_attr_h",
                                                             "set_attr_node", "remove_node")]
-        for _ in range(10 if q else 150):
+        for _ in range(10 if q else 60):
             out.append({"family": "derive-agg", "layer": "seeded", "universe": uni, "weighted": weighted,
                         "ops": [rng.choice(adds) for _ in range(rng.randint(4, 6))], "mode": "agg"})
     return out
@@ -414,8 +414,8 @@ META = {
                  "cap 90, x 3 ops, incl. the weighted batch with one node set in two layers); aggregation / overlap on "
                  "states within 3 insertions (cap 60) + 10 seeded bases; weights, metadata values, degree filter "
                  "symbolic integers",
-        "thorough": "both label universes; states within 5 ops (cap 1500) x full alphabet; aggregation on states within "
-                    "4 insertions (cap 900) + 150 seeded bases",
+        "thorough": "both label universes; states within 5 ops (cap 300) x 12 ops (stride) x two histories; aggregation on "
+                    "states within 4 insertions (cap 300) + 60 seeded bases",
     },
     "stand_ins": [],
     "outside_claim": [
